@@ -61,8 +61,32 @@ func runC01(c *Ctx) {
 		}
 		e.Run()
 	}
+	// live settings switches (Create with a compatible schema toggling cache / asynchronous writes)
+	// inside histories: what reads return never depends on the settings the handle went through
+	{
+		cfg := Cfg{Async: 2}
+		alpha := []Op{
+			{Op: "ins", V: 0, K: 0}, {Op: "ins", V: 1, K: 2},
+			{Op: "upd", Slot: 0, V: 3, K: 0}, {Op: "del", Slot: 0}, {Op: "get", Slot: 0},
+			{Op: "settings", Alt: 0}, {Op: "settings", Alt: 1}, {Op: "settings", Alt: 4},
+		}
+		sdepth := 5
+		if c.Tier == "thorough" {
+			sdepth = 6
+			alpha = append(alpha, Op{Op: "settings", Alt: 6}, Op{Op: "reopen"})
+		}
+		e := &Explorer{C: c, Cfg: cfg, Prop: "C01", Alphabet: alpha, Depth: sdepth, MaxLive: 3}
+		e.Check = func(w *World) {
+			w.SweepBasic()
+			if len(w.Viol) == 0 {
+				w.SweepBasic()
+			}
+			c.Count("evaluations", 1)
+		}
+		e.Run()
+	}
 	c.Meta(map[string]interface{}{
-		"rule":     "breadth-first search over all call histories up to the stated depth from a fixed alphabet (inserts with forced key/index collisions, updates, deletes, batches, search-delete, reopen/abandon, flush family, reads as transitions) under each configuration; after every history the complete non-search read sweep (Count, All, AssignAll, Get/GetByUUID/Exist for every stored, deleted and never-stored id, twice) is compared with the reference map. A state is distinct by the canonical dump of the whole handle + file system + model; non-trivial = reached by at least one accepted write.",
+		"rule":     "(plus: histories of depth 5 (thorough 6) over 8 letters of which 3 switch cache / asynchronous writes on the live handle, same sweep.) breadth-first search over all call histories up to the stated depth from a fixed alphabet (inserts with forced key/index collisions, updates, deletes, batches, search-delete, reopen/abandon, flush family, reads as transitions) under each configuration; after every history the complete non-search read sweep (Count, All, AssignAll, Get/GetByUUID/Exist for every stored, deleted and never-stored id, twice) is compared with the reference map. A state is distinct by the canonical dump of the whole handle + file system + model; non-trivial = reached by at least one accepted write.",
 		"alphabet": alphabetC01(Cfg{}, c.Tier),
 		"configs":  cfgs,
 		"depth":    depth,
